@@ -56,9 +56,6 @@ MkDir(s, kids) ==
     [sb |-> IF s.sel = "/" THEN "" ELSE s.sel, handler |-> DataLists[s.list].handler, ign |-> s.ign,
      sniff |-> [mbox |-> DataLists[s.list].mbox, html |-> DataLists[s.list].html], kids |-> kids]
 
-\* two `Type=X` blocks for one entry make MergeLinkFiles call list.remove twice (ValueError, no reply):
-\* a crash on configuration input that belongs to C03/C08, excluded here and named
-DoubleHide(kids) == Cardinality({k \in kids : \E i \in DOMAIN k.blocks : k.blocks[i].x}) > 1
 \* a regular file called gophermap turns the directory into a Bucktooth menu (another handler
 \* serves it): not a listing produced by the directory handlers
 BuckTakesOver(s, kids) == DataLists[s.list].buck /\ \E k \in kids : k.name = "gophermap" /\ k.kind = "file"
@@ -67,7 +64,7 @@ SuiteDirs(s) ==
     {MkDir(s, BaseKids(s.base) \cup {ProbeKid(pr) : pr \in P}) :
         P \in {Q \in ProbeSets(s.nprobes) : DistinctNames(BaseKids(s.base) \cup {ProbeKid(pr) : pr \in Q})}}
     \cup {MkDir(s, ks) : ks \in PlainExtras}
-    \cup (IF s.meta THEN {MkDir(s, ks) : ks \in {m \in MetaDirs : ~DoubleHide(m)}} ELSE {})
+    \cup (IF s.meta THEN {MkDir(s, ks) : ks \in MetaDirs} ELSE {})
 
 Cases == UNION {{dd \in SuiteDirs(s) : ~BuckTakesOver(s, dd.kids)} : s \in Suites}
 
